@@ -186,6 +186,34 @@ def r3(ctx, R):
         R.violation("C14.R3", pf.short, "comment patterns derived before the loop", loc(pf, loops[0]), "the parser keeps the comment patterns chosen when the file object was created")
 
 
+def label_provenance(ctx, R, rid, pf, closer_call, strip_stmt, label_var):
+    from .shared import reaching_def_nodes
+
+    ds = reaching_def_nodes(ctx, pf, ctx.m.enclosing_stmt(closer_call), label_var)
+    others = [d for d in ds if d is not strip_stmt]
+    if others and not all(isinstance(d, ast.Assign) and isinstance(d.value, ast.Call) and isinstance(d.value.func, ast.Name) and d.value.func.id == "strip_line_label" for d in others):
+        o = others[0]
+        R.violation(rid, pf.short, f"label of every statement stripped :: {key(pf, o)[:60]}", loc(pf, o) if o != "param" else loc(pf, pf.node), f"on some path `{label_var}` does not come from strip_line_label ({unparse(o)[:50] if o != 'param' else 'parameter'}): a labelled statement that follows a `;` (`total = total + i; 10 continue`) keeps its label in the text and never closes its DO - the same statement on a line of its own does")
+    else:
+        R.ok(rid, pf.short, "label of every statement stripped", loc(pf, strip_stmt), "the closer's label always comes from strip_line_label")
+
+
+def parse_label_sites(ctx):
+    """(parse function, strip statement, label variable, closer call) or None"""
+    from .c02 import file_class
+
+    fc = file_class(ctx)
+    pf = ctx.m.funcs[fc.methods["parse"]]
+    strip = [c for c in calls_in(pf.node) if isinstance(c.func, ast.Name) and c.func.id == "strip_line_label"]
+    closer = [c for c in calls_in(pf.node) if isinstance(c.func, ast.Attribute) and "do_fixed" in c.func.attr]
+    if not strip or not closer:
+        return None
+    st = ctx.m.enclosing_stmt(strip[0])
+    if isinstance(st, ast.Assign) and isinstance(st.targets[0], ast.Tuple) and len(st.targets[0].elts) == 2 and isinstance(st.targets[0].elts[1], ast.Name):
+        return pf, st, st.targets[0].elts[1].id, closer[0]
+    return None
+
+
 def r4(ctx, R):
     R.rule("C14.R4", "labelled DO termination is wired: the statement label is stripped and handed to the DO closer, which closes every DO sharing the label", floor=3, confirmed=4)
     from .c02 import file_class
@@ -211,6 +239,20 @@ def r4(ctx, R):
         R.ok("C14.R4", pf.short, key(pf, ctx.m.enclosing_stmt(c)), loc(pf, c), "label handed to the closer")
     else:
         R.violation("C14.R4", pf.short, key(pf, ctx.m.enclosing_stmt(c)), loc(pf, c), "the stripped label does not reach the labelled-DO closer")
+    # every statement - also one cut off at `;` - has its label stripped before it reaches the closer
+    from .shared import reaching_def_nodes
+
+    if label_var:
+        label_provenance(ctx, R, "C14.R4", pf, c, st, label_var)
+    # the stack of pending DO labels is popped by the closer only (push on `DO <label>`, pop on the labelled statement)
+    stack_arg = next((unparse(a) for a in list(c.args) + [k.value for k in c.keywords] if isinstance(a, ast.Name) and "stack" in a.id), None)
+    if stack_arg:
+        foreign = [x for x in calls_in(pf.node) if ctx.m.enclosing_func(x) is pf and isinstance(x.func, ast.Attribute) and x.func.attr in ("pop", "clear", "remove", "popleft") and unparse(x.func.value) == stack_arg]
+        foreign += [x for x in ctx.m.walk_own(pf.node) if isinstance(x, ast.Delete) and any(stack_arg in unparse(t) for t in x.targets)]
+        if foreign:
+            R.violation("C14.R4", pf.short, f"`{stack_arg}` popped by the labelled-DO closer only", loc(pf, foreign[0]), f"`{unparse(foreign[0])[:60]}` removes a pending DO label outside the closer: an unlabelled `do ... end do` nested in `do 10 i` discards label 10, `10 continue` no longer closes the outer DO and everything after it is nested wrongly")
+        else:
+            R.ok("C14.R4", pf.short, f"`{stack_arg}` popped by the labelled-DO closer only", loc(pf, c))
     # one labelled statement ends every DO that names its label (do 10 i / do 10 j / 10 continue)
     for q in ctx.r.resolve_call(pf, c)[1]:
         g = ctx.m.funcs.get(q)
